@@ -1,6 +1,7 @@
 package props
 
 import (
+	"runtime"
 	"encoding/json"
 	"fmt"
 	"hash/fnv"
@@ -44,6 +45,12 @@ type c20Case struct {
 	// Prior (seeded mode): lengths for which the same operation is called, in this order, in the same
 	// process before the judged call (a result must not depend on earlier calls, e.g. a cached buffer)
 	Prior []int  `json:"prior,omitempty"`
+	// Long (seeded dirichlet): the parameter vector has this many components, all 1 but component BadAt
+	// which is Bad (a vector long enough for code that shares the draws between workers); Procs: GOMAXPROCS
+	Long  int    `json:"long,omitempty"`
+	BadAt int    `json:"bad_at,omitempty"`
+	Bad   string `json:"bad,omitempty"`
+	Procs int    `json:"gomaxprocs,omitempty"`
 	Mode  string `json:"mode"` // tree | leaf | seed | det
 	// Progress only keeps the liveness mark of a long tree changing; it is ignored by replay.
 	Progress int64       `json:"progress,omitempty"`
@@ -529,12 +536,25 @@ func c20GenRates(c *mc.Ctx, cs c20Case) {
 }
 
 // c20Seed: the real math/rand stream for an enumerated seed (pass-through mode).
-func c20Seed(c *mc.Ctx, cs c20Case) {
-	c.Mark(cs)
+func c20Seed(c *mc.Ctx, payload c20Case) {
+	c.Mark(payload)
 	c.Eval()
+	cs := payload
+	if cs.Long > 0 {
+		cs.Alpha = make([]string, cs.Long)
+		for i := range cs.Alpha {
+			cs.Alpha[i] = "1"
+		}
+		if cs.Bad != "" && cs.BadAt >= 0 && cs.BadAt < cs.Long {
+			cs.Alpha[cs.BadAt] = cs.Bad
+		}
+	}
 	var res c20Res
 	vrt.CatchExitAlways.Store(true)
 	pn, msg, exited := mc.GuardExit(func() {
+		if cs.Procs > 0 {
+			defer runtime.GOMAXPROCS(runtime.GOMAXPROCS(cs.Procs))
+		}
 		rand.Seed(cs.Seed)
 		for _, l := range cs.Prior {
 			prior := cs
@@ -543,12 +563,13 @@ func c20Seed(c *mc.Ctx, cs c20Case) {
 		}
 		res = c20Apply(cs)
 	})
+
 	if pn {
-		c.Violation("C20/"+cs.Op+"/panic/"+mc.PanicSite(msg), msg+"; seeded case "+jsonStr(cs), cs)
+		c.Violation("C20/"+cs.Op+"/panic/"+mc.PanicSite(msg), msg+"; seeded case "+jsonStr(payload), payload)
 		return
 	}
 	if exited {
-		c.Violation("C20/"+cs.Op+"/exit", "the library asked the process to exit; seeded case "+jsonStr(cs), cs)
+		c.Violation("C20/"+cs.Op+"/exit", "the library asked the process to exit; seeded case "+jsonStr(payload), payload)
 		return
 	}
 	clause, desc, skip := c20Leaf(cs, res, true)
@@ -560,11 +581,11 @@ func c20Seed(c *mc.Ctx, cs c20Case) {
 		if len(cs.Prior) > 0 {
 			clause += "/after-earlier-calls" // its payload carries the call history: replayable on its own
 		}
-		c.Violation("C20/"+cs.Op+"/"+clause, desc+"; seeded case "+jsonStr(cs), cs)
+		c.Violation("C20/"+cs.Op+"/"+clause, desc+"; seeded case "+jsonStr(payload), payload)
 		return
 	}
 	c.Count("seeded_runs", 1)
-	c.Nontrivial("seed|" + jsonStr(cs))
+	c.Nontrivial("seed|" + jsonStr(payload))
 	c.Outcome(cs.Op + ":seeded-ok")
 }
 
@@ -960,6 +981,21 @@ func c20Cases(tier string) []c20Weighted {
 			add("seed", 200+float64(L), c20Case{Op: "wgamma", L: L, Seed: seed, Mode: "seed"})
 			add("seed", 200+float64(L), c20Case{Op: "wdirichlet", L: L, Seed: seed, Mode: "seed"})
 			add("seed", 200+float64(L), c20Case{Op: "dirichlet1", L: L, Factor: factors[int(seed)%4], Seed: seed, Mode: "seed"})
+		}
+		// long parameter vectors (4095..4097, 5000, 9000 components) with one invalid component at the front, in
+		// the middle, at a block border, at the end - and without any -, with 1, 2, 3, 16 processors: an invalid
+		// parameter is reported whatever the length of the vector and the number of workers drawing it
+		if seed == 1 {
+			for _, n := range []int{4095, 4096, 4097, 5000, 9000} {
+				for _, procs := range []int{1, 2, 3, 16} {
+					add("seed", 5000, c20Case{Op: "dirichlet", Factor: 1, Long: n, Seed: seed, Procs: procs, Mode: "seed"})
+					for _, bad := range []string{"0", "-1", "NaN", "+Inf"} {
+						for _, at := range []int{0, 1, n / 2, 2048, n - 2, n - 1} {
+							add("seed", 5000, c20Case{Op: "dirichlet", Factor: 1, Long: n, BadAt: at, Bad: bad, Seed: seed, Procs: procs, Mode: "seed"})
+						}
+					}
+				}
+			}
 		}
 		// length sweep: every length 3..300 and the neighbourhoods of the powers of two and of
 		// multiples of 1024 (block-wise summation, buffer growth and loop-unrolling boundaries)
